@@ -359,3 +359,38 @@ let () =
          | _, None, _ -> "ERR-base"
          | _, _, None -> "ERR-frag")
     | _ -> "BADARGS")
+
+(* ------------------------------------------------------------------ skeleton changes (C14) *)
+let () =
+  let yes b = if b then "1" else "0" in
+  register "skeleton" (function
+    | kind :: out :: parent :: args ->
+        (match sem_str (explode out), sem_str (explode parent) with
+         | Some o, Some p0 ->
+             let p = strip_h p0 in
+             let n k = nat_of_int (int_of_string (List.nth args k)) in
+             (match kind with
+              | "ol" -> (match reduce_ring p with
+                         | Some (r, c) -> yes (same_except_at r o (fun i -> int_of_nat i = int_of_nat c))
+                         | None -> "NOSPEC")
+              | "onic" -> (match reduce_ring p with
+                           | Some (r, c) -> yes (same_except_at (oxidise r c) o (fun i -> false))
+                           | None -> "NOSPEC")
+              | "aric" -> (match reduce_ring p, terminal_carbon p with
+                           | Some (r, c), Some t -> yes (same_except_at (oxidise (oxidise r c) t) o (fun i -> false))
+                           | _, _ -> "NOSPEC")
+              | "uronic" -> (match terminal_carbon p with
+                             | Some t -> yes (same_molecule (oxidise p t) o)
+                             | None -> "NOSPEC")
+              | "deoxy" -> (match deoxy p (n 0) with Some e -> yes (same_molecule e o) | None -> "NOSPEC")
+              | "anhydro" -> (match anhydro p (n 0) (n 1) with Some e -> yes (same_molecule e o) | None -> "NOSPEC")
+              | "epimer" -> (match position p (n 0) with
+                             | Some (x, _) -> yes (inverted_exactly_at p o (fun i -> int_of_nat i = int_of_nat x))
+                             | None -> "NOSPEC")
+              | "size" -> (match chain_length (strip_h o) with
+                           | Some k -> yes (int_of_nat k = int_of_string (List.nth args 0))
+                           | None -> "NOSPEC")
+              | _ -> "BADKIND")
+         | None, _ -> "ERR-out"
+         | _, None -> "ERR-parent")
+    | _ -> "BADARGS")
